@@ -169,7 +169,42 @@ def r3_join(ctx):
     else:
         r.inst("reduce_into", "nulls / subkeys / empty strings dropped, numbers joined as text, resolved references inlined, ranges / plurals / variables kept, nested blocs flattened forward")
     fn = ast.fn(PV, "fmt", impl_self="Literal", impl_trait="Display")
+    disp_ok = None
     if fn is not None:
+        # evaluated: the Display text of each kind of literal is the text of the carried value (the float 2.0 prints `2`)
+        absint.set_program(ast)
+        disp_ok = True
+        for kname, lit in kinds.items():
+            ev = mk()
+
+            def dfmt(a):
+                x = a[0]
+                ev.out.append(("float", x[1][6:]) if x[0] == "atom" and x[1].startswith("float:") else (("str", "true" if x[1] else "false") if x[0] == "bool" else x))
+                return C("Ok", absint.UNIT)
+            for kk in ("Display::fmt", "fmt::Display::fmt", "std::fmt::Display::fmt", "core::fmt::Display::fmt"):
+                ev.path_builtins[kk] = dfmt
+            ev.builtins["fmt"] = lambda rv, a: dfmt([rv])
+            got = ev.run_fn(fn, [lit, A("formatter")])
+            try:
+                txt = None if isinstance(got, str) else absint.dtable.render([("fmt", S("{}"), (x,)) if x[0] in ("float", "int") else x for x in ev.out])
+            except Exception as ex_:  # noqa: BLE001
+                txt = None
+                import os
+                if os.environ.get("VERIF_DEBUG"):
+                    print("DEBUG Literal::fmt", got, ev.out, repr(ex_))
+            if txt is None:
+                import os
+                if os.environ.get("VERIF_DEBUG"):
+                    print("DEBUG Literal::fmt", got, ev.out)
+                disp_ok = None
+                break
+            if txt != shown[kname]:
+                disp_ok = False
+                r.viol("R3:Literal::fmt", "Display for Literal prints %s as `%s`, the carried value reads `%s`" % (absint.fmt(lit), txt, shown[kname]), file=fn.file, line=fn.line)
+                break
+        if disp_ok:
+            r.inst("Literal as Display", "prints the carried value")
+    if fn is not None and disp_ok is None:
         m = find_first(fn.body, "Match")
         badf = [show_pat(a["pat"]) for a in (m or {"arms": []})["arms"] if not re.match(r"^Display::fmt(\w+),f$", flatp(show(a["body"])))]
         if badf or not m:
